@@ -44,7 +44,8 @@ def run(ctx):
     ctx.assumptions.append("get_direction's float guess round(|S| ** (1/n)) is an oracle input d0 of the model (recomputed by the harness); the theorem holds for every d0 >= 1")
     uk = ctx.unit("K:grid_move/get_direction", "K",
                   "DiagonalGridSearchOptimizer.grid_move for every pointer, OrthogonalGridSearchOptimizer.grid_move for every "
-                  "nth_trial < 2|S|, get_direction; all shapes with |S| <= bound in 1-4 dims x every step dividing |S|; "
+                  "nth_trial < 2|S|, get_direction; all shapes with |S| <= bound in 1-4 dims x every step dividing |S|; plus the trials "
+                  "around every pass boundary for pass lengths 25..400 with steps 2-5; "
                   "distinct by (shape, step, pointer)")
     us = ctx.unit("S:GridSearchOptimizer.iterate", "S",
                   "real GridSearchOptimizer runs (both directions, every step dividing |S|, random initialize) for n_inits + |S| "
@@ -100,6 +101,39 @@ def run(ctx):
                                   dict(dims=dims, step_size=s, direction=direction, initialize=init, positions=it),
                                   "%s grid on shape %r with step_size %d visits only %d distinct points in its first %d iteration steps"
                                   % (direction, dims, s, len(set(map(tuple, it))), S))
+    # larger spaces with step_size > 1: the trials around every pass boundary (t = j * |S|/step +- 1) of the orthogonal decoder and
+    # full runs of a few of them -- float effects in the pass counter only show for particular pass lengths (49, 98, 103, 107, ...)
+    qs = [49, 98, 103, 107, 161, 187, 196, 197] + [rng.randrange(25, 400) for _ in range(6 if ctx.quick else 60)]
+    for qi, q in enumerate(qs):
+        for s in ((2, 3) if qi < 8 else (rng.choice([2, 3, 4, 5]),)):
+            S = q * s
+            dims = [S] if rng.random() < 0.5 else ([q, s] if rng.random() < 0.5 else [s, q])
+            space = {"x%d" % i: np.arange(d) for i, d in enumerate(dims)}
+            og = OrthogonalGridSearchOptimizer(space, random_state=0, step_size=s)
+            ts = sorted({t for j in range(0, s + 1) for t in (j * q - 1, j * q, j * q + 1) if 0 <= t < 2 * S} | {rng.randrange(2 * S) for _ in range(6)})
+            omoves = []
+            for t in ts:
+                og.nth_trial = t
+                omoves.append([int(x) for x in og.grid_move()])
+            klits.append("(%s, %s, %s, %s, %s)" % (clist(dims), cz(-s), cz(0), clist(ts), clist(omoves, clist)))
+            kcases.append(dict(dims=dims, step=s, trials=ts[:8], moves=omoves[:8]))
+            uk.count((tuple(dims), "orth-boundary", s), nontrivial=True)
+            if qi % 3 == 0 and S <= 700:
+                for direction in ("orthogonal", "diagonal"):
+                    opt = gfo.GridSearchOptimizer(space, initialize={"random": 1}, random_state=rng.randrange(1000), step_size=s, direction=direction)
+                    n_inits = opt.init.n_inits
+                    with contextlib.redirect_stdout(io.StringIO()):
+                        opt.search(lambda para: 0.0, n_iter=n_inits + S, verbosity=False, memory=False)
+                    it = [tuple(int(x) for x in p) for p in opt.pos_l[n_inits:n_inits + S]]
+                    ctx.monitor_runs += 1
+                    ctx.monitor_nontrivial.add((tuple(dims), s, direction))
+                    if len(set(it)) != S:
+                        seen = set()
+                        dup = next(p_ for p_ in it if p_ in seen or seen.add(p_))
+                        ctx.violation(dict(kind="grid-not-covering", direction=direction),
+                                      dict(dims=dims, step_size=s, direction=direction, initialize={"random": 1}, first_repeated=list(dup), distinct=len(set(it))),
+                                      "%s grid on shape %r with step_size %d visits only %d distinct points in its first %d iteration steps"
+                                      % (direction, dims, s, len(set(it)), S))
     uk.exhaustive = True
     uk.samples = kcases[:2]
     us.samples = scases[:2]
